@@ -102,7 +102,7 @@ def check_total(case):
         return Outcome(inconclusive=r2[1])
     if r2[0] == "crash":
         return Outcome(nontrivial=nontrivial, classes=["crash"], failure=Failure(
-            "crash", "Term.from_string(%r) raised %s" % (s, r2[2]), sig="from_string|" + r2[1]))
+            "crash", "Term.from_string(%r) raised %s" % (s, r2[2]), sig=r2[1]))
     cls = "parsed" if r[0] == "ok" else "rejected:" + r[1]
     if r[0] == "ok":
         feats.append("statements:%s" % ("0" if r[1] == 0 else "1" if r[1] == 1 else "2+"))
@@ -516,6 +516,8 @@ def node_class(x, as_child=True):
         return "infix-hi" if BIN[x[1]][0] >= 1000 else "infix"
     if k == "cmp":
         return "call"
+    if k == "atom" and x[1] == "[]":
+        return "list"
     return k
 
 
@@ -553,7 +555,7 @@ def root_cause_sig(m):
         parent = "infix-hi" if BIN[m[1]][0] >= 1000 else "infix"
     offending = None
     for slot, child in _children_slots(m):
-        if child[0] in ("atom", "var"):
+        if child[0] in ("atom", "var") and child[1] != "[]":
             continue
         try:
             if roundtrip(build(_replace(m, slot, ["atom", "z"]))) is None:
@@ -570,11 +572,32 @@ def root_cause_sig(m):
                 offending = hit[0]
                 break
     if offending is None:
-        return "rt:%s/?" % parent
+        return "rt:other:%s/?" % parent
     cc = node_class(offending)
     if m[0] == "bin" and offending[0] == "bin" and BIN[m[1]][0] == BIN[offending[1]][0]:
         cc = "infix-same-priority"
-    return "rt:%s/%s" % (parent, cc)
+    return "rt:%s:%s/%s" % (root_cause(parent, cc), parent, cc)
+
+
+def root_cause(parent, child):
+    """Root-cause family of a (node class, offending child class) pair; see KNOWN_CLASSES for the case predicates."""
+    if parent in ("prefix", "not", "directive"):
+        return "prefix-operand"            # operand of a prefix operator printed without parentheses / separator
+    if child == "or":
+        return "disjunction-operand"       # Or carries no priority: never parenthesised
+    if child == "not":
+        return "negation-operand"          # nested Not printed in call notation / without parentheses
+    if child in ("infix-hi", "clause", "ad") or (child == "prob" and parent != "ad"):
+        return "priority-1000-operand"     # operand of priority >= 1000 as argument / conjunct / clause body
+    if child == "and":
+        return "conjunction-operand"       # left-nested conjunction, conjunction as probability
+    if child in ("neg-number", "prefix"):
+        return "sign-after-operator"       # 'a<-1', '1:-1', 'a/\\b', '2**-3'
+    if child == "infix-same-priority":
+        return "mixed-associativity"       # 'a^b*c'
+    if parent == "prob" and child == "infix":
+        return "probability-on-operator"   # 0.5::m:a loses its probability
+    return "other"
 
 
 def _minimal_failing(a, budget):
@@ -730,10 +753,132 @@ SUBCHECKS = [
 ]
 
 
-def _const_shape_pred(prefix):
-    return lambda case, failure: failure.sig.startswith(prefix)
+# ------------------------------------------------------------------------------------------------ known-finding classes
+# Narrow predicates computed from the case (the AST); they mirror root_cause() above.
 
+_SIMPLE = ("atom", "var", "number", "str", "call")
+
+
+def _walk(a, parent=None, slot=None):
+    """Yield (node, parent node, slot) for every node of the AST."""
+    yield a, parent, slot
+    for sl, child in _children_slots(a):
+        for x in _walk(child, a, sl):
+            yield x
+
+
+def _leftmost_sign(x):
+    c = node_class(x)
+    if c in ("neg-number", "prefix"):
+        return True
+    if x[0] == "not":
+        return x[1] != "not"
+    if x[0] in ("bin", "and", "or", "prob"):
+        kids = [ch for _, ch in _children_slots(x)]
+        return bool(kids) and _leftmost_sign(kids[0])
+    return False
+
+
+def _ast_of(case):
+    return case["ast"] if isinstance(case, dict) and "ast" in case else None
+
+
+def _cls_prefix_operand(case, failure):
+    a = _ast_of(case)
+    if a is None:
+        return False
+    for n, _, _ in _walk(a):
+        if node_class(n) == "prefix" and node_class(n[2]) not in _SIMPLE:
+            return True
+        if n[0] == "not" and (node_class(n[2]) in ("neg-number", "prefix", "infix-hi", "prob", "clause", "list")
+                              or _leftmost_sign(n[2])):
+            return True
+        if n[0] == "directive" and (_leftmost_sign(n[1]) or (n[1][0] == "bin" and BIN[n[1][1]][0] >= 1200)):
+            return True
+    return False
+
+
+def _cls_child(parents, children, slots=None):
+    def pred(case, failure):
+        a = _ast_of(case)
+        if a is None:
+            return False
+        for n, par, sl in _walk(a):
+            if par is None:
+                continue
+            pc = node_class(par)
+            if pc in parents and node_class(n) in children and (slots is None or slots(par, sl)):
+                return True
+        return False
+    return pred
+
+
+def _cls_nested_not(case, failure):
+    """A negation below a compound term, list, operator or probability (printed there in call notation)."""
+    a = _ast_of(case)
+    if a is None:
+        return False
+
+    def rec(n, under):
+        if n[0] == "not" and under:
+            return True
+        u = under or node_class(n) in ("call", "list", "infix", "infix-hi", "prefix", "prob")
+        return any(rec(ch, u) for _, ch in _children_slots(n))
+    return rec(a, False)
+
+
+def _cls_mixed_assoc(case, failure):
+    a = _ast_of(case)
+    if a is None:
+        return False
+    for n, par, _ in _walk(a):
+        if par is not None and n[0] == "bin" and par[0] == "bin" and BIN[n[1]][0] == BIN[par[1]][0] \
+                and BIN[n[1]][1] != BIN[par[1]][1]:
+            return True
+    return False
+
+
+def _cls_sign_after_operator(case, failure):
+    a = _ast_of(case)
+    if a is None:
+        return False
+    for n, _, _ in _walk(a):
+        if n[0] == "bin" and (_leftmost_sign(n[3]) or node_class(n[2]) == "neg-number"):
+            return True
+    return False
+
+
+def _has_op(op):
+    def pred(case, failure):
+        a = _ast_of(case)
+        return a is not None and any(n[0] == "bin" and n[1] == op for n, _, _ in _walk(a))
+    return pred
+
+
+_NONSTATEMENT = ("call", "list", "infix", "infix-hi", "prefix", "not", "and", "or", "prob", "clause", "directive", "ad")
 
 KNOWN_CLASSES = {
     "always": lambda case, failure: True,
+    # rt:prefix-operand:*
+    "prefix_operator_operand": _cls_prefix_operand,
+    # rt:disjunction-operand:*  (with the printer repair only 'or_as_call_argument' is left)
+    "or_as_operand": _cls_child(("call", "list", "infix", "infix-hi", "prob", "or", "ad", "clause"), ("or",),
+                                lambda par, sl: not (par[0] == "or" and sl[0] == 2) and not (par[0] in ("clause", "ad")
+                                                                                             and sl[0] == 2)),
+    "or_as_call_argument": _cls_child(("call",), ("or",)),
+    # rt:negation-operand:*
+    "nested_negation": _cls_nested_not,
+    # rt:priority-1000-operand:*
+    "priority_1000_operand": _cls_child(_NONSTATEMENT, ("infix-hi", "prob", "clause", "ad")),
+    # rt:conjunction-operand:*
+    "left_nested_conjunction": _cls_child(("and", "prob", "call", "list", "infix", "infix-hi"), ("and",),
+                                          lambda par, sl: par[0] != "and" or sl[0] == 1),
+    # rt:sign-after-operator:*
+    "sign_after_operator": _cls_sign_after_operator,
+    # rt:mixed-associativity:*
+    "mixed_associativity": _cls_mixed_assoc,
+    # rt:probability-on-operator:*
+    "probability_on_operator": _cls_child(("prob",), ("infix", "infix-hi"), lambda par, sl: sl[0] == 2),
+    # rt-parsed-only:\=@=
+    "uses_eq_at_operator": _has_op("\\=@="),
 }
